@@ -98,7 +98,9 @@ type Exec struct {
 	pcVars         *big.Int
 	pcVarsN        int
 	initSkipped    int
+	frozen         bool
 	ctxErrs        map[string]Value
+	w              *Worker
 }
 
 type NdInput struct {
@@ -180,9 +182,27 @@ func (x *Exec) replaying() bool { return x.pos < len(x.decisions) }
 
 func (x *Exec) feasible(extra ...*Term) bool {
 	conds := append(append([]*Term{}, x.pc...), extra...)
-	r, _ := x.solver.Check(conds, false)
+	for _, c := range extra {
+		if c.IsFalse() {
+			return false
+		}
+	}
+	// a model produced earlier for this harness (on this or a sibling path) may already witness feasibility
+	if x.w != nil && x.merging == 0 {
+		for i := len(x.w.pool) - 1; i >= 0; i-- {
+			if x.w.pool[i].satisfies(conds) {
+				x.res.ModelHits++
+				return true
+			}
+		}
+	}
+	wantModel := x.w != nil && x.merging == 0
+	r, m := x.solver.Check(conds, wantModel)
 	if r == Unknown {
 		x.res.Unknowns++
+	}
+	if r == Sat && m != nil {
+		x.w.addModel(m)
 	}
 	return r != Unsat
 }
@@ -196,6 +216,9 @@ func (x *Exec) branch(c *Term) bool {
 		return false
 	}
 	x.res.SymBranches++
+	if x.merging == 0 && x.res.SymBranches > x.maxSymBranches() {
+		panic(pathEnd{Kind: "bound", Msg: fmt.Sprintf("more than %d symbolic branches on one path (input-controlled loop?)", x.maxSymBranches()), Site: x.site()})
+	}
 	if dbg := os.Getenv("GOSYM_DEBUG_BRANCH"); dbg != "" && x.curInstr != nil && strings.Contains(x.curInstr.Parent().String(), dbg) && !x.replaying() {
 		str := x.ctx.Script([]*Term{c}, "")
 		if len(str) > 800000 {
@@ -410,6 +433,9 @@ func (x *Exec) callFunction(fn *ssa.Function, args []Value, caller *frame) Value
 	if fn.Blocks == nil {
 		// try synthetic wrappers
 		panic(x.unsupported("no body for " + fn.String()))
+	}
+	if x.eng.opaqueErrorCtor(fn) {
+		return x.newErr(fn.Name(), nil)
 	}
 	if x.eng.mergeable(fn) {
 		if r, ok := x.callMerged(fn, args, caller); ok {
@@ -863,7 +889,10 @@ func (x *Exec) makeSliceOp(fr *frame, in *ssa.MakeSlice) Value {
 			x.goPanicf("makeslice: cap out of range")
 		}
 		if n > int64(x.eng.maxConcreteAlloc) {
-			panic(pathEnd{Kind: "bound", Msg: fmt.Sprintf("concrete make of %d elements", n), Site: x.site()})
+			// a huge concrete allocation (length read from the wire): model it lazily, like a symbolic length above
+			// the allocation bound; out-of-memory is outside every claim
+			x.res.LazyAllocs = append(x.res.LazyAllocs, x.site())
+			return Slice{Lazy: &LazyArr{Len: ln, Elem: elem, Sparse: map[int]*Cell{}, A: x.newAlloc(x.site(), "lazy")}}
 		}
 		return x.makeSlice(elem, int(n), int(c), x.site())
 	}
@@ -1467,4 +1496,11 @@ func (x *Exec) lenientInitCall(fr *frame, in *ssa.Call) (res Value) {
 	}()
 	fn, args := x.prepareCall(fr, &in.Call)
 	return x.callValue(fn, args, fr)
+}
+
+func (x *Exec) maxSymBranches() int {
+	if x.h != nil && x.h.MaxSymBranches > 0 {
+		return x.h.MaxSymBranches
+	}
+	return 4000
 }
